@@ -32,6 +32,23 @@ type H struct {
 	nops  int
 	stats map[string]int
 	buf   *bytes.Buffer // only for per-goroutine transcripts
+	spares [][]byte     // spare capacity (filled with 0xEE) behind holder slices of the current value
+}
+
+// checkSpares: memory reachable from the value but outside it (spare capacity of its slices) must
+// not be written by size / encode
+func (h *H) checkSpares(what string, sid int) {
+	for _, sp := range h.spares {
+		for _, b := range sp {
+			if b != 0xEE {
+				h.oracle("C16", fmt.Sprintf("%s wrote into the spare capacity of a slice of its argument sid=%d", what, sid))
+				for i := range sp {
+					sp[i] = 0xEE
+				}
+				return
+			}
+		}
+	}
 }
 
 func (h *H) emit(line string) {
@@ -132,6 +149,7 @@ func (h *H) opSize(u *universe.UStruct, p reflect.Value, byval bool) int {
 		h.oracle("C16", fmt.Sprintf("EncodedSize modified its argument sid=%d before=%s after=%s", u.Sid, vs, after))
 	}
 	h.stats["size"]++
+	h.checkSpares("EncodedSize", u.Sid)
 	return n
 }
 
@@ -172,6 +190,7 @@ func (h *H) opEnc(u *universe.UStruct, p reflect.Value, o encOpt) []byte {
 		return "ok"
 	})
 	h.stats["enc"]++
+	h.checkSpares("EncodeObject", u.Sid)
 	if after := showValue(p.Elem()); after != vs {
 		h.oracle("C16", fmt.Sprintf("EncodeObject modified its argument sid=%d before=%s after=%s", u.Sid, vs, after))
 	}
@@ -258,6 +277,9 @@ func (h *H) opDec(u *universe.UStruct, input []byte, dest reflect.Value, walk bo
 	}
 	if res != "ok" {
 		h.emit(line + " -> " + res)
+		if strings.HasPrefix(res, "panic") {
+			h.oracle("C05", fmt.Sprintf("DecodeObject panicked (%s) sid=%d in=%s", res, u.Sid, hexOrDash(orig)))
+		}
 		return false, n, nil
 	}
 	shown := showDecoded(dest.Elem(), buf)
